@@ -66,6 +66,8 @@ func C03_Curated() {
 		"def a { def b { x = 1002 }\n def c { b = 1001 } }\n",
 		"def t { var v = 1001 }\ndef u { v = 1002\n w = v }\n",
 		"def p \"pn\" { TYPE = 1001\n def q { x = TYPE\n y = NAME } z = TYPE }\n",
+		"def p { def zone \"example.org.\" { a = 1001 }\n def zone \"example.org\" { a = 1002 }\n def zone \".\" { a = 1003 } }\n",
+		"def zone \"a.\" { a = 1001 }\ndef zone \"a\" { a = 1002 }\ndef p { def q \"\" { a = 1003 }\n def q \".\" { } }\n",
 	}
 	src := progs[verif.Choice("prog", len(progs))]
 	values := map[string]any{}
@@ -78,5 +80,45 @@ func C03_Curated() {
 	verif.Observe("nblocks", len(r.Real.Blocks))
 	verif.Observe("err", errClass(r.Real.Err))
 	r.assertAgree("curated")
+	verif.Reach("compared")
+}
+
+// C03_ChildNames: two children of one type whose names are any strings of
+// 0..2 bytes over {'.', 'a', '_'}: they clash (runtime error) exactly when
+// the names are equal, otherwise both are stored under their own keys.
+func C03_ChildNames() {
+	n1 := verif.Bytes("n1", verif.Choice("len1", 3))
+	n2 := verif.Bytes("n2", verif.Choice("len2", 3))
+	for _, c := range append(append([]byte{}, n1...), n2...) {
+		verif.Assume(c == '.' || c == 'a' || c == '_')
+	}
+	src := "def p {\n def c \"" + string(n1) + "\" {\n f = 1\n }\n def c \"" + string(n2) + "\" {\n f = 2\n }\n}\n"
+	r := runBoth(src, nil)
+	verif.Observe("err", errClass(r.Real.Err))
+	r.assertAgree("childnames")
+	verif.Reach("compared")
+}
+
+// C03_Wide: CONCRETE INSTANCES - enough blocks or fields that the constant
+// indices in DEFBLOCK / SETFIELD operands cross the one-byte varint range.
+func C03_Wide() {
+	src := ""
+	if verif.Choice("what", 2) == 0 {
+		n := []int{117, 119, 121, 125, 140}[verif.Choice("n", 5)]
+		for i := 0; i < n; i++ {
+			src += "def srv \"n" + itoa(i) + "\" {\n port = " + itoa(8000+i) + "\n}\n"
+		}
+	} else {
+		n := []int{236, 239, 241, 245, 260}[verif.Choice("n", 5)]
+		src = "def big \"b\" {\n"
+		for i := 0; i < n; i++ {
+			src += " f" + itoa(i) + " = true\n"
+		}
+		src += "}\ndef after {\n x = 1\n}\n"
+	}
+	r := runBoth(src, nil)
+	verif.Observe("nblocks", len(r.Real.Blocks))
+	verif.Observe("err", errClass(r.Real.Err))
+	r.assertAgree("wide")
 	verif.Reach("compared")
 }
